@@ -215,7 +215,7 @@ pub fn run(ctx: &Ctx) {
     let suites = shared_suites();
     let mut cases = Vec::new();
     for (ni, hs) in names.iter().enumerate() {
-        for k in 0..ctx.tier.pick(1usize, 4) {
+        for k in 0..ctx.tier.pick(2usize, 4) {
             let suite = suites[(ni + k) % 4];
             let mut spec = SessionSpec::simple(hs.clone(), suite, mix(ctx.seed, (ni * 4 + k) as u64));
             spec.eph = if (ni + k) % 2 == 0 { EphMode::Rng } else { EphMode::Fixed };
@@ -227,7 +227,7 @@ pub fn run(ctx: &Ctx) {
     let names = std::sync::Arc::new(names);
     ctx.run_prop(
         "random_inputs",
-        ctx.tier.pick(300, 6000),
+        ctx.tier.pick(600, 8000),
         || {
             let names = names.clone();
             (any::<u16>(), 0usize..4, any::<u64>(), prop::collection::vec(0u8..20, 1..4), any::<u64>(), 0usize..200, any::<bool>()).prop_map(move |(ni, si, seed, payload_classes, fill, pl, eph)| {
